@@ -1,161 +1,208 @@
 (* C17 - Committee sampling always yields a well-formed, stake-respecting committee.
    Theorems over the executable model of src/disseminator/rotor/sampling_strategy.rs (Model/Sampling.v),
    for EVERY validator set, committee size and random stream (a stream is the list of words the RNG
-   returns, so "every stream" covers every RNG and every seed).  `construct` / `sample_quorum` cover all
-   nine strategies of the crate; `order` is the order into which PartitionSampler::new's thread-RNG
-   shuffle put the validators.
+   returns, so "every stream" covers every RNG and every seed).  `construct cv` / `sample_quorum` cover all
+   nine strategies; `cv = Current` is the code as it is now (`construct_current` additionally computes the
+   fixed-seed shuffle order of PartitionSampler::new), `cv = Pinned` the tree this work started from
+   (f64 seat counts, thread-RNG shuffle passed as `order`, no small-set case in TurbineSampler), kept so
+   that the `.._pinned_.._refuted` theorems remain statements about a faithful model of that tree.
 
-   Covered by proof:  committee size, membership, zero-weight validators never drawn, pre-allocated
-   Fait Accompli seats, decay cap, constructibility where it holds, termination of the constructors,
-   purity in (validator set, random source) where it holds.
-   Refuted for the faithful model (defects of the code, witnesses replayed on the implementation by
-   the check): floor(f*k) seats (binary64 rounding), FA2's committee size, constructibility of PartitionSampler,
-   FA1-with-partition (Rotor::new_fa1), FA1 with stake-weighted fallback (u64 overflow), FA2 and
-   TurbineSampler, purity of the partition-based samplers.
+   Proved for the current code: committee size exactly k for every strategy (FA2 included, no premise), membership, zero-weight
+   validators never drawn, the floor(f*k) guarantee of both FA1 samplers and of FA2's pre-allocation for ALL
+   stake distributions (exact integer arithmetic, no float premise), decay cap, constructibility of Uniform /
+   StakeWeighted / Decay / AllSame / FA1-with-stake-weighted-fallback (k >= 1) / TurbineSampler on one or two
+   validators, termination of every constructor, purity of every strategy (PartitionSampler and
+   FA1-with-partition included) in (validator set, random source).
+   Still refuted for the current code (known findings): constructibility of PartitionSampler (empty bin), of
+   FA1-with-partition (Rotor::new_fa1) and of FA2 (sum f <= 1.0 assertion).
    PARTIAL (validated by the oracle / correspondence only, because it needs reasoning about binary64):
-   - FA2 returns exactly k validators: proved under `fa2_counts_ok` (pre-allocated + medium seats <= k),
-     which FA2's constructor assertion is meant to ensure but does not (C17_fa2_committee_size_refuted);
-     where it holds is decided per case by the oracle;
    - the decay cap is proved from the premise `rejects_at` (count / max_samples >= 1 > random f64 once
      count >= cap), a fact about binary64 division;
-   - zero-stake validators among FA2's pre-allocated / medium seats and TurbineSampler's derived weights;
-   - that the modelled rand / compiler-builtins routines (Lemire, Canon, Bernoulli, f64 conversions, powi)
-     are the ones the binary runs: tied by the draw-by-draw correspondence check. *)
+   - zero-stake validators among FA2's pre-allocated / medium seats and TurbineSampler's derived weights
+     (n >= 3), constructibility of TurbineSampler for n >= 3;
+   - that the modelled rand / compiler-builtins routines (Lemire, Canon, Bernoulli, slice shuffle on ChaCha12,
+     f64 conversions, powi) are the ones the binary runs: tied by the draw-by-draw correspondence check
+     (committees and bins). *)
 From Coq Require Import List NArith Bool Floats.
 From AG Require Import Gen.Params Model.Sampling Proofs.SamplingProofs.
 Import ListNotations.
 Open Scope N_scope.
 
-(* every strategy returns exactly the configured number of validators *)
+(* every strategy of the current code returns exactly the configured number of validators, unconditionally
+   (FA2: pre-allocated seats sum to at most k by exact arithmetic, medium seats are clamped) *)
 Theorem C17_committee_has_configured_size : forall st stakes order sm s q r,
-  construct st stakes order = COk sm -> fa2_counts_ok sm ->
+  construct Current st stakes order = COk sm ->
+  sample_quorum sm s = Ok q r -> lenN q = quorum_size st.
+Proof. exact quorum_len_current. Qed.
+
+(* either version, with the condition FA2 needs spelled out *)
+Theorem C17_committee_has_configured_size_if_fa2_counts_ok : forall cv st stakes order sm s q r,
+  construct cv st stakes order = COk sm -> fa2_counts_ok sm ->
   sample_quorum sm s = Ok q r -> lenN q = quorum_size st.
 Proof. exact quorum_len. Qed.
 
-(* ... the proviso cannot be dropped: FA2 with five near-equal stakes around 2^53 and k = 25 returns 29 *)
-Theorem C17_fa2_committee_size_refuted :
+(* in the pinned tree (f64 seats, unclamped medium nodes) the condition failed: five near-equal stakes
+   around 2^53 and k = 25: 29 seats *)
+Theorem C17_fa2_committee_size_pinned_refuted :
   exists stakes k sm s q r,
-    positive_set stakes /\ construct (StFA2 k) stakes [] = COk sm /\ sample_quorum sm s = Ok q r /\ k < lenN q.
-Proof. exact fa2_committee_size_refuted. Qed.
+    positive_set stakes /\ construct Pinned (StFA2 k) stakes [] = COk sm /\ sample_quorum sm s = Ok q r /\ k < lenN q.
+Proof. exact fa2_committee_size_pinned_refuted. Qed.
 
 (* each a member of the set *)
-Theorem C17_members_belong_to_the_validator_set : forall st stakes order sm s q r,
-  construct st stakes order = COk sm -> valid_order stakes order -> lenN stakes < W64 ->
+Theorem C17_members_belong_to_the_validator_set : forall cv st stakes order sm s q r,
+  construct cv st stakes order = COk sm -> valid_order stakes order -> lenN stakes < W64 ->
   sample_quorum sm s = Ok q r -> Forall (fun v => v < lenN stakes) q.
 Proof. exact members_in_range. Qed.
+(* the constructors of the current code are `construct Current` on a valid order of their own making *)
+Theorem C17_current_constructors : forall st stakes sm,
+  construct_current st stakes = COk sm ->
+  exists order, valid_order stakes order /\ construct Current st stakes order = COk sm.
+Proof. exact construct_current_as_construct. Qed.
 
 (* a zero-weight validator is never drawn (stake-driven strategies; FA1: the non-pre-allocated part) *)
-Theorem C17_zero_weight_never_drawn : forall st stakes order sm s q r,
+Theorem C17_zero_weight_never_drawn : forall cv st stakes order sm s q r,
   stake_drawn st = true ->
-  construct st stakes order = COk sm -> sample_quorum sm s = Ok q r ->
-  exists drawn, q = prealloc st stakes ++ drawn /\ Forall (fun v => 0 < nthN stakes v 0) drawn.
+  construct cv st stakes order = COk sm -> sample_quorum sm s = Ok q r ->
+  exists drawn, q = prealloc cv st stakes ++ drawn /\ Forall (fun v => 0 < nthN stakes v 0) drawn.
 Proof. exact zero_weight_never_drawn. Qed.
 
-Theorem C17_turbine_zero_weight_never_drawn : forall fanout k stakes order sm s q r,
-  construct (StTurbine fanout k) stakes order = COk sm -> sample_quorum sm s = Ok q r ->
-  exists ws, turbine_weights stakes fanout = Some ws /\ Forall (fun v => 0 < nthN ws v 0) q.
+Theorem C17_turbine_zero_weight_never_drawn : forall cv fanout k stakes order sm s q r,
+  construct cv (StTurbine fanout k) stakes order = COk sm -> sample_quorum sm s = Ok q r ->
+  exists ws, turbine_weights cv stakes fanout = Some ws /\ Forall (fun v => 0 < nthN ws v 0) q.
 Proof. exact turbine_zero_weight_never_drawn. Qed.
 
-(* Fait Accompli: at least the pre-allocated seats the code computes, for every draw *)
-Theorem C17_fa_preallocated_seats : forall st stakes order sm s q r v,
+(* Fait Accompli: a validator with stake fraction f receives at least floor(f*k) of the k seats, for every
+   draw, every stake distribution and every k - both FA1 samplers and FA2 (exact_floor s total k = s*k/total) *)
+Theorem C17_fa_floor_guarantee : forall st stakes order sm s q r v,
   is_fa st = true ->
-  construct st stakes order = COk sm -> sample_quorum sm s = Ok q r -> v < lenN stakes ->
-  fa_seats (nthN stakes v 0) (sumN stakes) (quorum_size st) <= count_occ_N q v.
+  construct Current st stakes order = COk sm -> sample_quorum sm s = Ok q r -> v < lenN stakes ->
+  exact_floor (nthN stakes v 0) (sumN stakes) (quorum_size st) <= count_occ_N q v.
+Proof. exact fa_floor_guarantee. Qed.
+
+(* either version: at least the seats the code pre-allocates *)
+Theorem C17_fa_preallocated_seats : forall cv st stakes order sm s q r v,
+  is_fa st = true ->
+  construct cv st stakes order = COk sm -> sample_quorum sm s = Ok q r -> v < lenN stakes ->
+  seats cv (nthN stakes v 0) (sumN stakes) (quorum_size st) <= count_occ_N q v.
 Proof. exact fa_preallocated_seats. Qed.
 
-(* ... which is the floor(f*k) of the property wherever the binary64 computation is exact ... *)
-Theorem C17_fa_floor_guarantee_where_float_exact : forall st stakes order sm s q r v,
-  is_fa st = true ->
-  construct st stakes order = COk sm -> sample_quorum sm s = Ok q r -> v < lenN stakes ->
-  fa_seats (nthN stakes v 0) (sumN stakes) (quorum_size st) = exact_floor (nthN stakes v 0) (sumN stakes) (quorum_size st) ->
-  exact_floor (nthN stakes v 0) (sumN stakes) (quorum_size st) <= count_occ_N q v.
-Proof. exact fa_floor_guarantee_where_float_exact. Qed.
-
-(* ... and not in general: 49 equal stakes, k = 49 *)
-Theorem C17_fa_floor_guarantee_refuted :
+(* pinned tree: binary64 seats; 49 equal stakes, k = 49: nobody was guaranteed a seat *)
+Theorem C17_fa_floor_guarantee_pinned_refuted :
   exists stakes k sm s q r v,
-    construct (StFA1Stake k) stakes [] = COk sm /\ sample_quorum sm s = Ok q r /\ v < lenN stakes /\
+    construct Pinned (StFA1Stake k) stakes [] = COk sm /\ sample_quorum sm s = Ok q r /\ v < lenN stakes /\
     count_occ_N q v < exact_floor (nthN stakes v 0) (sumN stakes) k.
-Proof. exact fa_floor_guarantee_refuted. Qed.
+Proof. exact fa_floor_guarantee_pinned_refuted. Qed.
 
 (* without-replacement decay: no validator exceeds its seat cap *)
-Theorem C17_decay_cap : forall mnum mden k stakes order sm cap s q r v,
-  construct (StDecay mnum mden k) stakes order = COk sm ->
+Theorem C17_decay_cap : forall cv mnum mden k stakes order sm cap s q r v,
+  construct cv (StDecay mnum mden k) stakes order = COk sm ->
   rejects_at (decay_max mnum mden) cap ->
   sample_quorum sm s = Ok q r -> count_occ_N q v <= cap.
 Proof. exact decay_sampler_cap. Qed.
 
-(* constructible for every validator set with positive stakes: holds for these strategies ... *)
-Theorem C17_constructible : forall st stakes order,
+(* constructible for every validator set with positive stakes: these strategies ... *)
+Theorem C17_constructible : forall cv st stakes order,
   positive_set stakes ->
   match st with
   | StUniform _ | StStake _ | StDecay _ _ _ => True
   | StAllSame v _ => v < lenN stakes
   | _ => False
   end ->
-  exists sm, construct st stakes order = COk sm.
+  exists sm, construct cv st stakes order = COk sm.
 Proof. exact constructible. Qed.
-
-(* ... no constructor loops forever ... *)
-Theorem C17_constructors_terminate : forall st stakes order, construct st stakes order <> CHang.
+(* ... FA1 with the stake-weighted fallback, now that its arithmetic is exact (any k >= 1) ... *)
+Theorem C17_fa1_stake_constructible : forall stakes k order,
+  positive_set stakes -> 1 <= k ->
+  exists sm, construct Current (StFA1Stake k) stakes order = COk sm.
+Proof. exact fa1_stake_constructible. Qed.
+(* ... TurbineSampler on one or two validators ... *)
+Theorem C17_turbine_small_constructible : forall stakes fanout k order,
+  positive_set stakes -> lenN stakes <= 2 ->
+  exists sm, construct Current (StTurbine fanout k) stakes order = COk sm.
+Proof. exact turbine_small_constructible. Qed.
+(* ... and no constructor loops forever *)
+Theorem C17_constructors_terminate : forall cv st stakes order, construct cv st stakes order <> CHang.
 Proof. exact construct_never_hangs. Qed.
 
-(* ... and fails for the others *)
+(* still failing constructors (known findings) *)
 Theorem C17_partition_constructible_refuted :
-  exists stakes bins, positive_set stakes /\ construct (StPartition bins) stakes (map fst (indexed 0 stakes)) = CPanic.
+  exists stakes bins, positive_set stakes /\ construct_current (StPartition bins) stakes = CPanic.
 Proof. exact partition_constructible_refuted. Qed.
 Theorem C17_fa1_partition_constructible_refuted :
-  exists stakes, positive_set stakes /\ construct (StFA1Part TOTAL_SHREDS) stakes (map fst (indexed 0 stakes)) = CPanic.
+  exists stakes, positive_set stakes /\ construct_current (StFA1Part TOTAL_SHREDS) stakes = CPanic.
 Proof. exact fa1_partition_constructible_refuted. Qed.
-Theorem C17_fa1_stake_constructible_refuted :
-  exists stakes, positive_set stakes /\ construct (StFA1Stake TOTAL_SHREDS) stakes [] = CPanic.
-Proof. exact fa1_stake_constructible_refuted. Qed.
 Theorem C17_fa2_constructible_refuted :
-  exists stakes k, positive_set stakes /\ construct (StFA2 k) stakes [] = CPanic.
+  exists stakes k, positive_set stakes /\ construct_current (StFA2 k) stakes = CPanic.
 Proof. exact fa2_constructible_refuted. Qed.
-Theorem C17_turbine_constructible_refuted :
-  construct (StTurbine TURBINE_DEFAULT_FANOUT 1) [1] [] = CPanic /\
-  construct (StTurbine TURBINE_DEFAULT_FANOUT 1) [1; 1] [] = CPanic.
-Proof. exact turbine_constructible_refuted. Qed.
+(* failing constructors of the pinned tree that have been repaired *)
+Theorem C17_fa1_stake_constructible_pinned_refuted :
+  exists stakes, positive_set stakes /\ construct Pinned (StFA1Stake TOTAL_SHREDS) stakes [] = CPanic.
+Proof. exact fa1_stake_constructible_pinned_refuted. Qed.
+Theorem C17_turbine_constructible_pinned_refuted :
+  construct Pinned (StTurbine TURBINE_DEFAULT_FANOUT 1) [1] [] = CPanic /\
+  construct Pinned (StTurbine TURBINE_DEFAULT_FANOUT 1) [1; 1] [] = CPanic.
+Proof. exact turbine_constructible_pinned_refuted. Qed.
 
-(* a function of the validator set and the supplied random source only: `sample_quorum` is a function of
-   the constructed sampler and the stream; the constructed sampler depends on nothing else ... *)
-Theorem C17_pure_in_validators_and_rng : forall st stakes o1 o2,
-  order_free st = true -> construct st stakes o1 = construct st stakes o2.
+(* a function of the validator set and the supplied random source only: the sampler the current code
+   constructs is `construct_current st stakes` (no other input; for the partition-based strategies the order
+   is rand's shuffle on StdRng::from_seed([0; 32])), and `sample_quorum` is a function of sampler and stream *)
+Theorem C17_pure_in_validators_and_rng : forall st stakes sm1 sm2 s,
+  construct_current st stakes = COk sm1 -> construct_current st stakes = COk sm2 ->
+  sample_quorum sm1 s = sample_quorum sm2 s.
 Proof. exact pure_in_validators_and_rng. Qed.
-(* ... except for the thread-RNG shuffle of PartitionSampler::new *)
-Theorem C17_partition_pure_in_rng_refuted :
+(* the strategies without bins never read the order (either version) ... *)
+Theorem C17_pure_in_validators_and_rng_order_free : forall cv st stakes o1 o2,
+  order_free st = true -> construct cv st stakes o1 = construct cv st stakes o2.
+Proof. exact pure_in_validators_and_rng_order_free. Qed.
+(* ... and in the pinned tree the thread-RNG order made PartitionSampler impure *)
+Theorem C17_partition_pure_in_rng_pinned_refuted :
   exists stakes bins o1 o2 sm1 sm2 s,
-    construct (StPartition bins) stakes o1 = COk sm1 /\ construct (StPartition bins) stakes o2 = COk sm2 /\
+    construct Pinned (StPartition bins) stakes o1 = COk sm1 /\ construct Pinned (StPartition bins) stakes o2 = COk sm2 /\
     (exists q1 q2 r1 r2, sample_quorum sm1 s = Ok q1 r1 /\ sample_quorum sm2 s = Ok q2 r2 /\ q1 <> q2).
-Proof. exact partition_pure_in_rng_refuted. Qed.
+Proof. exact partition_pure_in_rng_pinned_refuted. Qed.
 
 Example C17_nonvacuous :
-  match construct (StFA1Stake 8) [5; 1; 1; 1] [] with
-  | COk sm => match sample_quorum sm (xs32_words 16 7) with
-              | Ok q _ => (lenN q =? 8) && (5 <=? count_occ_N q 0)
-              | _ => false
-              end
-  | _ => false
-  end = true.
-Proof. vm_compute. reflexivity. Qed.
+  (match construct_current (StFA1Stake 49) (ones 49) with
+   | COk sm => match sample_quorum sm [] with
+               | Ok q _ => forallb (fun v => count_occ_N q v =? 1) (map fst (indexed 0 (ones 49)))
+               | _ => false
+               end
+   | _ => false
+   end
+   && match construct_current (StFA1Stake 8) [5; 1; 1; 1] with
+      | COk sm => match sample_quorum sm (xs32_words 16 7) with
+                  | Ok q _ => (lenN q =? 8) && (5 <=? count_occ_N q 0)
+                  | _ => false
+                  end
+      | _ => false
+      end
+   && match construct_current (StFA2 3) [9007199254740993; 9007199254740993; 9007199254740993] with
+      | COk sm => match sample_quorum sm (xs32_words 6 1) with Ok q _ => lenN q =? 3 | _ => false end
+      | _ => false
+      end) = true.
+Proof. exact sampling_nonvacuous. Qed.
 
 Print Assumptions C17_committee_has_configured_size.
-Print Assumptions C17_fa2_committee_size_refuted.
+Print Assumptions C17_committee_has_configured_size_if_fa2_counts_ok.
+Print Assumptions C17_fa2_committee_size_pinned_refuted.
 Print Assumptions C17_members_belong_to_the_validator_set.
+Print Assumptions C17_current_constructors.
 Print Assumptions C17_zero_weight_never_drawn.
 Print Assumptions C17_turbine_zero_weight_never_drawn.
+Print Assumptions C17_fa_floor_guarantee.
 Print Assumptions C17_fa_preallocated_seats.
-Print Assumptions C17_fa_floor_guarantee_where_float_exact.
-Print Assumptions C17_fa_floor_guarantee_refuted.
+Print Assumptions C17_fa_floor_guarantee_pinned_refuted.
 Print Assumptions C17_decay_cap.
 Print Assumptions C17_constructible.
+Print Assumptions C17_fa1_stake_constructible.
+Print Assumptions C17_turbine_small_constructible.
 Print Assumptions C17_constructors_terminate.
 Print Assumptions C17_partition_constructible_refuted.
 Print Assumptions C17_fa1_partition_constructible_refuted.
-Print Assumptions C17_fa1_stake_constructible_refuted.
 Print Assumptions C17_fa2_constructible_refuted.
-Print Assumptions C17_turbine_constructible_refuted.
+Print Assumptions C17_fa1_stake_constructible_pinned_refuted.
+Print Assumptions C17_turbine_constructible_pinned_refuted.
 Print Assumptions C17_pure_in_validators_and_rng.
-Print Assumptions C17_partition_pure_in_rng_refuted.
+Print Assumptions C17_pure_in_validators_and_rng_order_free.
+Print Assumptions C17_partition_pure_in_rng_pinned_refuted.
 Print Assumptions C17_nonvacuous.
